@@ -136,12 +136,18 @@ class FilReader(Filterbank):
             )
             raise ValueError(msg)
 
-        self._file.seek(start * self.samp_stride)
+        # channel c needs input samples [start + delay_c, start + delay_c + nsamps):
+        # read every input sample any channel needs, from the earliest to the latest
+        first_sample = int(min_sample.min())
+        last_sample = int(max_sample.max())
+        self._file.seek(first_sample * self.samp_stride)
         samples_read = np.zeros(self.header.nchans, dtype=int)
         data = np.zeros((self.header.nchans, nsamps), dtype=self._file.bitsinfo.dtype)
 
-        for isamp in track(range(nsamps), description="Reading dedispersed data ..."):
-            samples_offset = start + isamp
+        for samples_offset in track(
+            range(first_sample, last_sample),
+            description="Reading dedispersed data ...",
+        ):
             relevant_chans = np.argwhere(
                 np.logical_and(
                     max_sample > samples_offset,
